@@ -1,17 +1,19 @@
 package world
 
 import (
-	_ "embed"
-	"os"
 	"bytes"
+	_ "embed"
 	"encoding/json"
 	"io"
 	"net/http"
 	"net/http/httptest"
+	"os"
+	"runtime/debug"
 	"strings"
 
 	"github.com/nuts-foundation/nuts-node/auth"
 	authIAMAPI "github.com/nuts-foundation/nuts-node/auth/api/iam"
+	cryptoAPI "github.com/nuts-foundation/nuts-node/crypto/api/v1"
 	"github.com/nuts-foundation/nuts-node/didman"
 	"github.com/nuts-foundation/nuts-node/discovery"
 	discoveryServerAPI "github.com/nuts-foundation/nuts-node/discovery/api/server"
@@ -20,7 +22,6 @@ import (
 	"github.com/nuts-foundation/nuts-node/jsonld"
 	"github.com/nuts-foundation/nuts-node/policy"
 	"github.com/nuts-foundation/nuts-node/vcr"
-	cryptoAPI "github.com/nuts-foundation/nuts-node/crypto/api/v1"
 	vcrAPI "github.com/nuts-foundation/nuts-node/vcr/api/vcr/v2"
 	vdrAPIv2 "github.com/nuts-foundation/nuts-node/vdr/api/v2"
 	"github.com/nuts-foundation/nuts-node/vdr/resolver"
@@ -99,7 +100,7 @@ func (n *Node) Call(method, path string, body interface{}, hdr ...string) (int, 
 		req.Header.Set(hdr[i], hdr[i+1])
 	}
 	rec := httptest.NewRecorder()
-	n.Echo.ServeHTTP(rec, req)
+	n.serveGuarded(rec, req, "api "+method+" "+path)
 	if n.W.RecordAPI {
 		n.W.apiMu.Lock()
 		if len(n.W.APILog) < 5000 {
@@ -117,8 +118,22 @@ func (n *Node) Call(method, path string, body interface{}, hdr ...string) (int, 
 // Serve runs an http.Request against the node's router.
 func (n *Node) Serve(req *http.Request) *http.Response {
 	rec := httptest.NewRecorder()
-	n.Echo.ServeHTTP(rec, req)
+	n.serveGuarded(rec, req, "http "+req.Method+" "+req.URL.Path)
 	return rec.Result()
+}
+
+// serveGuarded runs the router; with World.OnPanic set, a panic of a handler (net/http would
+// log it and cut the connection) is reported and answered with status 500.
+func (n *Node) serveGuarded(rec *httptest.ResponseRecorder, req *http.Request, where string) {
+	if n.W.OnPanic != nil {
+		defer func() {
+			if v := recover(); v != nil {
+				n.W.OnPanic(n.Name+" "+where, v, debug.Stack())
+				rec.Code = 500
+			}
+		}()
+	}
+	n.Echo.ServeHTTP(rec, req)
 }
 
 //go:embed testdata/policy.json
